@@ -117,6 +117,32 @@ def integrator_costs(run, it):
     it.explore(h, "integrator-costs", roots=[[i, j, k] for i in range(len(kinds)) for j in range(2) for k in range(2)])
 
 
+def cache_encapsulation(run_):
+    """The cost contract is a property of the cache protocol in states.py: it holds for the library as a whole only if nothing else reaches
+    into a state's memo tables.  Frame obligation (Engine C, on the real source): outside states.py no module reads or writes the private
+    members `_cache`, `_dependencies`, `_call_counts`, `_variables`, `_read_only` of any object -- e.g. an adapter or transition that clears
+    `state._cache` discards gradients at unchanged positions (extra user-function evaluations)."""
+    import ast
+    from .. import frames
+    private = {"_cache", "_dependencies", "_call_counts", "_variables", "_read_only"}
+    hits = []
+    for modname in ("adapters", "integrators", "samplers", "solvers", "stagers", "systems", "transitions", "matrices", "utils", "progressbars", "interop"):
+        try:
+            tree, _ = frames.parse_module(modname)
+        except Exception:  # noqa: BLE001
+            continue
+        for node in ast.walk(tree):
+            if isinstance(node, ast.Attribute) and node.attr in private and not (isinstance(node.value, ast.Name) and node.value.id == "self" and modname == "matrices"):
+                hits.append(f"{modname}.py:{node.lineno} `{ast.unparse(node)}`")
+            if isinstance(node, ast.Call) and isinstance(node.func, ast.Name) and node.func.id in ("getattr", "setattr", "delattr") and len(node.args) >= 2 and \
+                    isinstance(node.args[1], ast.Constant) and node.args[1].value in private:
+                hits.append(f"{modname}.py:{node.lineno} `{ast.unparse(node)}`")
+    run_.ob("library/state-memo-tables-touched-only-by-states.py", core.DISCHARGED if not hits else core.FAILED, "frames",
+            detail="" if not hits else "; ".join(hits[:6]) + " -- cached values at unchanged variables are discarded / bypassed outside the cache protocol",
+            witness=None if not hits else {"accesses": hits[:6]},
+            text="no module other than states.py accesses ChainState._cache / _dependencies / _call_counts / _variables / _read_only")
+
+
 def run(run_, tier):
     it = Interp(run_)
     install_std(it)
@@ -128,6 +154,7 @@ def run(run_, tier):
     c09.protocol(run_, it, "C18")
     c09.aux_chain_universe(run_, it, "C18")
     c09.static_layers(run_, "C18")
+    cache_encapsulation(run_)
     it2 = Interp(run_)
     install_std(it2)
     integrator_costs(run_, it2)
